@@ -20,11 +20,11 @@ func init() {
 		Assumptions: []string{"go/token.Token.Precedence is the oracle for Go's five binary precedence levels"},
 		Trusted:     []string{"go/token precedence table"},
 		Quick: []ruleDef{
-			{"TAB-PREC", 100, ruleTabPrec},
-			{"TAB-ASSOC", 18, ruleTabAssoc},
-			{"TAB-UNARY", 3, ruleTabUnary},
-			{"TAB-MUNCH", 10, ruleTabMunch},
-			{"TAB-MASK", 3, ruleTabMask},
+			{"TAB-PREC", 165, ruleTabPrec},
+			{"TAB-ASSOC", 30, ruleTabAssoc},
+			{"TAB-UNARY", 4, ruleTabUnary},
+			{"TAB-MUNCH", 53, ruleTabMunch},
+			{"TAB-MASK", 4, ruleTabMask},
 		},
 	})
 }
@@ -453,6 +453,40 @@ func ruleTabUnary(c *Ctx, r *R) {
 			continue
 		}
 		parses := c.callsTo(fd.Body, "parser.doExpression", "parser.Expression")
+		pfd := map[*ast.CallExpr]*ast.FuncDecl{}
+		for _, pc := range parses {
+			pfd[pc] = fd
+		}
+		// the operand may be parsed by a helper that is handed the handler's own token
+		ast.Inspect(fd.Body, func(n ast.Node) bool {
+			call, ok := n.(*ast.CallExpr)
+			if !ok {
+				return true
+			}
+			o := c.Callee(call)
+			h := c.DeclOf(o)
+			if o == nil || h == nil || h.Body == nil || !c.isNewHelper(o) || h == fd {
+				return true
+			}
+			passesOwn := false
+			if fd.Type.Params != nil && len(fd.Type.Params.List) >= 2 && len(fd.Type.Params.List[1].Names) == 1 {
+				own := c.Info.Defs[fd.Type.Params.List[1].Names[0]]
+				for _, a := range call.Args {
+					if id, ok := unparen(a).(*ast.Ident); ok && c.Obj(id) == own {
+						passesOwn = true
+					}
+				}
+			}
+			for _, pc := range c.callsTo(h.Body, "parser.doExpression", "parser.Expression") {
+				if passesOwn {
+					parses = append(parses, pc)
+					pfd[pc] = h
+				} else {
+					r.undecided("nud "+op, c.Pos(call), "the operand is parsed by helper "+h.Name.Name+", which does not receive the handler's own token")
+				}
+			}
+			return true
+		})
 		if len(parses) == 0 {
 			// a handler that parses nothing (skipNud: & and * are identities here) groups nothing
 			r.note("unary %s: %s parses no operand (identity prefix)", op, fd.Name.Name)
@@ -460,7 +494,7 @@ func ruleTabUnary(c *Ctx, r *R) {
 		}
 		for i, pc := range parses {
 			key := fmt.Sprintf("nud %s#%d", op, i)
-			p, how, ok := c.powerOf(pc.Args[0], fd, rows, op)
+			p, how, ok := c.powerOf(pc.Args[0], pfd[pc], rows, op)
 			if !ok {
 				r.undecided(key, c.Pos(pc), "cannot evaluate the operand binding power "+c.Src(pc.Args[0]))
 				continue
